@@ -121,8 +121,13 @@ def archive_to_fsobj(src_tar):
         elif member.isfifo():
             yield fsFifo(location, **d)
         elif member.isdev():
-            d["major"] = int(member.major)
-            d["minor"] = int(member.minor)
+            # the tar header stores permission bits only; fsDev carries the device type
+            # in its mode (as livefs.gen_obj does)
+            d["mode"] = stat.S_IMODE(member.mode) | (
+                stat.S_IFCHR if member.ischr() else stat.S_IFBLK
+            )
+            d["major"] = int(member.devmajor)
+            d["minor"] = int(member.devminor)
             yield fsDev(location, **d)
         else:
             raise AssertionError(
